@@ -486,6 +486,80 @@ def h_history(ctx, n, prefix=(), real_noise=False, extra=()):
     return obs
 
 
+def h_keepalive_drop(ctx):
+    """the connection ends while the keep-alive thread is somewhere in its period (one pre-emption of the REAL thread body, after k lines
+    of the iq layer's file); then a new connection logs in: in its first period one ping leaves and, nothing of THIS connection being
+    unanswered, the keep-alive does not close it"""
+    import sys
+    from checks import preempt
+    st, w, net, disp, app, iq, iqmod = build(False)
+    N = SC.N()
+
+    def login():
+        app.connect()
+        disp.state = "up"
+        net.onConnected()
+        run_loop(st)
+        net.receive(N("success", {"t": "1400000000", "props": "4", "creation": "1300000000", "expiration": "1500000000", "kind": "free", "status": "active"}, None, b"x"))
+        run_loop(st)
+    k = ctx.choice("keepalive_preempted_after_lines", list(range(26)))
+    how = ctx.choice("connection_ends_by", ["peer-close", "disconnect-request"])
+    login()
+    th = w.ping_thread
+    obs = [("the keep-alive is started by the successful login", th is not None)]
+    if th is None:
+        return obs
+    calls = {"n": 0}
+
+    class QuickTime(object):
+        @staticmethod
+        def sleep(x):
+            calls["n"] += 1
+            if calls["n"] >= 40:
+                raise _StopTick()
+
+        def __getattr__(self, n):
+            import time as _t
+            return getattr(_t, n)
+    old = iqmod.time
+    iqmod.time = QuickTime()
+
+    def first():
+        try:
+            th.run()
+        except _StopTick:
+            pass
+
+    def second():
+        if how == "peer-close":
+            disp.state = "idle"
+            net.onDisconnected()
+        else:
+            app.disconnect()
+        run_loop(st)
+    try:
+        r = preempt.run_preempted(first, second, sys.modules[type(iq).__module__].__file__, k)
+    finally:
+        iqmod.time = old
+    obs.append(("neither the keep-alive thread nor the thread delivering the close gets stuck (%s)" % r["stuck"], not r["stuck"]))
+    if r["stuck"]:
+        return obs
+    run_loop(st)
+    login()
+    th2 = w.ping_thread
+    obs.append(("the keep-alive is started again by the new login", th2 is not None and th2 is not th))
+    if th2 is None or th2 is th:
+        return obs
+    n_sent, mark = len(w.sent_nodes), len(w.log)
+    ping_tick(w, iqmod)
+    run_loop(st)
+    pings = [x for x in w.sent_nodes[n_sent:] if getattr(x, "tag", None) == "iq" and hooks.dict_get(x.attributes, "xmlns") == "w:p"]
+    closed = "dispatcher.disconnect" in w.log[mark:]
+    obs.append(("first period of the new connection: one ping leaves and the connection stays up -- nothing of this connection is unanswered (pings %d, closed %s)" % (len(pings), closed),
+                len(pings) == 1 and not closed))
+    return obs
+
+
 def h_keepalive_thread(ctx, ticks):
     """the keep-alive's REAL thread body running on its own thread across several periods (its sleep is a gate the harness opens once per
     period): every period's ping is answered or not (solver's choice); the connection is closed exactly when a ping is still unanswered
@@ -844,6 +918,7 @@ def cases(tier):
                    max_paths=2000000, timeout_s=900 if q else 3400, keep_samples=8, weight=150))
     cs.append(dict(name="history+[prefix=up+success,connect request before the loop delivers a close,len<=4]", fn=h_history,
                    args=(4, up + ("success",), False, ("stream-error-then-connect-before-the-loop-runs",)), max_paths=200000, timeout_s=600, keep_samples=8))
+    cs.append(dict(name="keepalive[connection ends while the thread is in its period (one pre-emption), then a new login]", fn=h_keepalive_drop, keep_samples=60, timeout_s=600))
     cs.append(dict(name="keepalive[real thread body over %d periods]" % (3 if q else 4), fn=h_keepalive_thread, args=(3 if q else 4,), keep_samples=16, timeout_s=300))
     # the real network layer and asyncore dispatcher over a socket double
     nup = ("connect-request", "connect-completes")
